@@ -2,7 +2,7 @@
    `exact`, so it is checked to be convertible with it); proofs in RcP.v (strong side) and RcWeakP.v (weak side) *)
 From Coq Require Import ZArith List Bool Lia Arith.
 Import ListNotations.
-Require Import Params StateW DisposeW ModularW StateP ModularP RcDepthP RcEpochP RcStampP RcSnapCheck RcSnapP RcSnapInvP RcWSnapInvP Rc RcSpec RcP RcWeakP.
+Require Import Params StateW DisposeW ModularW StateP ModularP RcDepthP RcEpochP RcStampP RcSnapCheck RcSnapP RcSnapInvP RcWSnapInvP Rc RcSpec RcP RcWeakP RcRunOkEx.
 Local Open Scope Z_scope.
 
 (* the WeakSnapshot half of the property (RcSpec.C03_wsnap_statement) is stated in RcSpec.v and NOT proved *)
@@ -77,3 +77,29 @@ Theorem C03_weak_protection_stable :
 Proof. exact RcWSnapInvP.micro_wstable. Qed.
 Print Assumptions C03_weak_protection_stable.
 
+(* ---- run_ok is satisfiable, on a run that holds a WeakSnapshot inside its section (conclusion of the WeakSnapshot half) and
+   then turns it into a Weak after the count was zero (RcRunOkEx.v) *)
+Theorem C03_final_hypotheses_satisfiable :
+  run_ok ex2_s0 ex3_sched.
+Proof. exact RcRunOkEx.ex3_run_ok. Qed.
+Print Assumptions C03_final_hypotheses_satisfiable.
+
+Theorem C03_final_example_conclusion :
+  wsnap_valid (RcDepthP.mrun ex2_s0 ex2_sched).
+Proof. exact RcRunOkEx.ex2_wsnap_valid. Qed.
+Print Assumptions C03_final_example_conclusion.
+
+Theorem C03_final_example_state :
+  let s := RcDepthP.mrun ex2_s0 ex3_sched in
+       match gett s 1 with
+       | Some x =>
+           match geto s 1 with
+           | Some ob =>
+               negb (incs x) && obj_live s 1 && (owners s 1 =? 1) && (wowners s 1 =? 1) &&
+               (strong (word ob) =? 2) && tok ob && (weak (word ob) =? 2) && (err s =? 0)
+           | None => false
+           end
+       | None => false
+       end = true.
+Proof. exact RcRunOkEx.ex3_state. Qed.
+Print Assumptions C03_final_example_state.
